@@ -86,6 +86,7 @@ class World:
         self.readonly = False
         self.ties = []             # (n, d, r) of roundings taken with the half-unit-tie tolerance (28-digit quotient)
         self.floor_ties = []       # (n, d, r) of truncations / ceilings of such quotients (tolerance at exact integers)
+        self.ties_mark = 0         # index in `ties` where the roundings of the request being run start (histories accumulate earlier ones)
 
     def clone_into(self, memo):
         w = World()
@@ -99,6 +100,7 @@ class World:
         w.readonly = self.readonly
         w.ties = list(self.ties)
         w.floor_ties = list(self.floor_ties)
+        w.ties_mark = self.ties_mark
         return w
 
 
